@@ -104,6 +104,17 @@ def exc_sig(e):
     return [type(e).__name__] + list(reversed(frames[-6:]))
 
 
+def in_decoder(e):
+    """did the exception come out of an ISA decoder (any frame under amoco/arch/)? Decoding is C17's subject."""
+    t = e.__traceback__
+    while t is not None:
+        fn = t.tb_frame.f_code.co_filename.replace("\\", "/")
+        if "/amoco/arch/" in fn:
+            return True
+        t = t.tb_next
+    return False
+
+
 # --- concretisation ---------------------------------------------------------------------------------
 def class_table(isa, rng, tries=4000, per=12):
     """(byte length, flag) -> list of byte strings of that class, found by decoding seeded random
@@ -288,7 +299,7 @@ def sweep_trace(tid, isa, src, buf, start, rng, nops=6):
             _sweep_body(t, z, cpu, loc, start, rng, nops)
     except (Exception, Timeout) as e:
         sig = exc_sig(e)
-        if "disassembler.__call__" in sig and not isinstance(e, Timeout):
+        if in_decoder(e) and not isinstance(e, Timeout):
             # a decoder exception ends the sweep: C17's subject, recorded, not judged here
             return {"t": tid, "kind": "aborted", "isa": isa, "src": src, "start": start, "sig": "<".join(sig[:4])}
         t.update({"exc": type(e).__name__, "seq": [], "ib": [], "blocks": [], "gb": {"ok": 0}, "ops": []})
@@ -439,7 +450,7 @@ def _history_step(st, r, z, g, nodes, cfg):
         try:
             b = z.getblock(st[1])
         except Exception as e:
-            if "disassembler.__call__" in exc_sig(e):
+            if in_decoder(e):
                 return False      # a decoder exception (C17's subject): there is no block to insert
             raise
         if b is None or not b.instr:
@@ -455,7 +466,7 @@ def _history_step(st, r, z, g, nodes, cfg):
         try:
             ins = list(itertools.islice(z.sequence(z.prog.cpu.cst(st[1], z.prog.cpu.PC().size)), st[2]))
         except Exception as e:
-            if "disassembler.__call__" in exc_sig(e):
+            if in_decoder(e):
                 return False
             raise
         if len(ins) != st[2]:
